@@ -33,7 +33,8 @@ def ws2dgu(y, lmda, nodata, out):
         n = np.sum(w)
 
         if n > 1:
-            z = ws2d(y, lmda, w)
+            # missing cells carry zero weight: keep NaN/inf out of the solver
+            z = ws2d(np.where(w > 0, y, 0.0), lmda, w)
             np.round(z, 0, out)
         else:
             out[:] = y[:]
